@@ -1881,8 +1881,14 @@ class RTCSctpTransport(AsyncIOEventEmitter):
                 if channel is not None:
                     channel._setReadyState("open")
         elif pp_id == WEBRTC_STRING and stream_id in self._data_channels:
+            try:
+                message = data.decode("utf8")
+            except UnicodeDecodeError:
+                # not a string, drop it
+                return
+
             # emit message
-            self._data_channels[stream_id].emit("message", data.decode("utf8"))
+            self._data_channels[stream_id].emit("message", message)
         elif pp_id == WEBRTC_STRING_EMPTY and stream_id in self._data_channels:
             # emit message
             self._data_channels[stream_id].emit("message", "")
